@@ -18,6 +18,7 @@ from ufl.core.multiindex import Index
 from ufv import corpus
 from ufv import elements as E
 from ufv.core import crash_text, deliberate, proved, undecided, violated
+from ufv import num as N
 from ufv.den import World, den
 from ufv.opq import Opq, mesh
 from ufv.semv import check_same
@@ -163,6 +164,69 @@ def build(run):
             return res
         return proved("exec+z3", vcs=n + 1, sample="shape-changing mappings raise; unexpanded derivatives are expanded before replacing")
     run.add("replace/shape-and-derivative-guards", shapes, kind="values")
+
+    # ---- base forms: replace distributes over a weighted FormSum; a component that vanishes under the mapping takes ITS OWN weight with it
+    def formsum_weights():
+        from ufl import Action, Cofunction, FormSum, Matrix, ZeroBaseForm, TestFunction as TF
+        from ufv.props.c28 import Model
+        from ufv.smt import prove_equal
+        M = Model()
+        V = M.V
+        ff, gg = ufl.Coefficient(V), ufl.Coefficient(V)
+        c1, c2, c3 = Cofunction(V.dual()), Cofunction(V.dual()), Cofunction(V.dual())
+        Mx = Matrix(V, V)
+        vt = TF(V)
+        kc = ufl.Constant(M.m)
+        sums = {
+            "2*Action(M,f) + 3*c1 + 5*c2": [(Action(Mx, ff), 2), (c1, 3), (c2, 5)],
+            "3*c1 + 2*Action(M,f) + 5*c2": [(c1, 3), (Action(Mx, ff), 2), (c2, 5)],
+            "3*c1 + 5*c2 + 2*Action(M,f)": [(c1, 3), (c2, 5), (Action(Mx, ff), 2)],
+            "2*(f*v*dx) + 3*c1 + 7*c3": [(ff * vt * ufl.dx, 2), (c1, 3), (c3, 7)],
+            "k*c1 + 2*c2 + 3*Action(M,f)": [(c1, kc), (c2, 2), (Action(Mx, ff), 3)],
+        }
+        mappings = {"f->0": {ff: C.Zero()}, "f->g": {ff: gg}, "c1->0": {c1: ZeroBaseForm((vt,))}, "c1->c3": {c1: c3}, "c2->0, f->g": {c2: ZeroBaseForm((vt,)), ff: gg},
+                    "unmapped": {gg: ff}}
+        n = 0
+        for sname, comps in sums.items():
+            for mname, mp in mappings.items():
+                F = FormSum(*comps)
+                try:
+                    got = replace(F, mp)
+                    parts = [(replace(c_, mp), w_) for c_, w_ in comps]
+                except ValueError as ex:
+                    if not deliberate(ex):
+                        return violated(f"crash instead of a result or a refusal: {crash_text(ex)}", reproduced=True, backend="exec")
+                    continue
+                gone = lambda x_: (x_ == 0) or (isinstance(x_, ufl.Form) and not x_.integrals())     # noqa: E731
+                spec_parts = [(M.den(p_), M.weight(w_)) for p_, w_ in parts if not gone(p_)]
+                def den_bf(x_):
+                    if isinstance(x_, FormSum):       # an empty Form may stay behind as a component: it denotes zero
+                        ps = [(den_bf(c_), M.weight(w_)) for c_, w_ in zip(x_.components(), x_.weights()) if not gone(c_)]
+                        return M.sum_spec(ps) if ps else None
+                    return M.den(x_)
+                G = den_bf(got) if not gone(got) else None
+                if not spec_parts:
+                    if G is not None and any(not N.is_zero_const(v_) for v_ in G[1].values()):
+                        return violated(f"replace({sname}, {mname}) is non-zero although every component vanishes", replay={"sum": sname, "mapping": mname, "result": str(got)}, reproduced=True)
+                    n += 1
+                    continue
+                want = M.sum_spec(spec_parts)
+                if G is None:
+                    G = M.zeros(want[0])
+                if [tuple(x) for x in G[0]] != [tuple(x) for x in want[0]]:
+                    return violated(f"replace({sname}, {mname}) has argument slots {G[0]}, the sum of the replaced components has {want[0]}",
+                                    replay={"sum": sname, "mapping": mname, "result": str(got)}, reproduced=True, backend="structural")
+                for ix, val in want[1].items():
+                    vr = prove_equal(M.w, G[1][ix], val, tmo)
+                    n += 1
+                    if vr.status == "refuted":
+                        return violated(f"replace({sname}, {mname}) = {str(got)[:200]} is not the weighted sum of the replaced components (entry {ix}): the weights of the "
+                                        f"surviving components changed; counter-model {vr.model}",
+                                        replay={"sum": sname, "mapping": mname, "result": str(got)[:600], "entry": list(ix), "model": vr.model}, reproduced=True, backend=vr.backend)
+                    if vr.status != "proved":
+                        return undecided(f"replace({sname}, {mname}) entry {ix}: {vr.backend} {vr.detail}")
+        return proved("z3", vcs=n, sample=f"{len(sums)} weighted FormSums x {len(mappings)} mappings: den(replace(sum w_i B_i)) == sum w_i den(replace(B_i)) in the tensor model of C28")
+    run.add("replace/weighted-FormSum", formsum_weights, kind="values")
 
     def canary():
         e = f * g
